@@ -22,7 +22,8 @@ uncached answer for a key is the same in all states in which the key's events ar
 (`Deterministic`). For real events that is C05 (the answer is a function of the ancestry); for the
 temporary ids of `Build` it additionally needs that an id never denotes two different events — the
 defect repaired by `fix:` ae8ece9 (ids #1 and #256 coincided): `C07_defect_reused_id` shows that
-without it a stale entry is served.
+without it a stale entry is served. That the repaired `uniqueID.sample` never repeats an id within 2^192
+builds is `Facts.temp_ids_never_reused` (model `Model.TempId`, shape regenerated: `Facts.sample_shape`).
 `Deterministic` is DISCHARGED for the vector-index model (second half of this file):
 * `fc_deterministic_prefix` (= `C05_fc_stable`): growing a valid history `h` to `h ++ more`, or rolling
   back from `h ++ more` to `h`, does not change the model's `fc` answer for events of `h`;
